@@ -811,7 +811,10 @@ def run_ignore(ctx, fedjax, jax, jnp, cfg, rng, cache):
               f'step {s}: trained parameter {m}/{n} differs from the base optimizer applied to the pruned tree',
               {**lw, 'expected': exp})
           if np_opt is not None:
-            mon(ctx, 'ignore-oracle', present and core.close(got[m][n], npp[m][n], rtol=2e-5, atol=2e-6),
+            # float32 Adam computes its bias correction 1 - 0.999**t by cancellation (relative error ~6e-5/t), which moves a
+            # step by up to ~lr * 4e-5 / t from the float64 rule: the absolute tolerance carries lr * 1.5e-4 for adam bases
+            atol_o = 2e-6 + (1.5e-4 * float(spec[1]) if spec[0].startswith('adam') else 0.0)
+            mon(ctx, 'ignore-oracle', present and core.close(got[m][n], npp[m][n], rtol=2e-5, atol=atol_o),
               'ignore/trained-param-differs-from-numpy-oracle',
               f'step {s}: trained parameter {m}/{n} differs from the float64 NumPy {spec[0]} rule on the pruned tree',
               {**lw, 'expected': npp[m][n]})
